@@ -416,6 +416,50 @@ Proof.
   intros So Si H. unfold factors_b in H. rewrite andb_true_iff, !forallb_forall in H. exact H.
 Qed.
 
+(** within-trial factors of sustain count 1 meet the factor hypotheses of the assembly below *)
+Lemma plain_outer_split : forall So Si s,
+  factors_b So Si = true -> 0 < s_trials Si ->
+  length s = length (s_factors So) + length (s_factors Si) ->
+  forall f fd, nth_error (s_factors So) f = Some fd -> length (nth f s []) = s_trials So * s_trials Si ->
+    (factor_ok (nest_sem2 So Si) s f (scale_factor (s_trials Si) (crossed_in So f) fd) = true <->
+     (crossed_in So f = true -> forall t, t < s_trials So * s_trials Si ->
+        get_cell s f t = get_cell s f (t / s_trials Si * s_trials Si)) /\
+     (forall j, j < s_trials Si -> (crossed_in So f = true -> j = 0) ->
+        factor_ok So (reps_at (length (s_factors So)) (s_trials So) (s_trials Si) j s) f fd = true)).
+Proof.
+  intros So Si s HF HTi Hl f fd Hfd Hlen.
+  destruct (factors_b_spec So Si HF) as [HFo _].
+  set (N := nest_sem2 So Si). set (To := s_trials So) in *. set (Ti := s_trials Si) in *.
+  set (no := length (s_factors So)) in *. set (ni := length (s_factors Si)) in *.
+  assert (HN : s_trials N = To * Ti) by reflexivity.
+  assert (Hfn : f < no) by (apply nth_error_Some; congruence).
+  pose proof (HFo fd (nth_error_In _ _ Hfd)) as Hp. fold no in Hp.
+  destruct (crossed_in So f) eqn:Ecr.
+  - rewrite (outer_factor_crossed N So s f fd no To Ti HN eq_refl HTi Hfn ltac:(lia) Hp Hlen). split.
+    + intros [A B]. split; [intros _; exact A|]. intros j Hj Hj0. rewrite (Hj0 eq_refl). exact B.
+    + intros [A B]. split; [apply A; reflexivity|]. apply B; [exact HTi|reflexivity].
+  - cbn [scale_factor].
+    rewrite (outer_factor_free N So s f fd no To Ti HN eq_refl HTi Hfn ltac:(lia) Hp Hlen). split.
+    + intro A. split; [discriminate|]. intros j Hj _. apply A. exact Hj.
+    + intros [_ B] j Hj. apply B; [exact Hj|discriminate].
+Qed.
+
+Lemma plain_inner_split : forall So Si s,
+  factors_b So Si = true -> 0 < s_trials Si ->
+  length s = length (s_factors So) + length (s_factors Si) ->
+  forall f fd, nth_error (s_factors Si) f = Some fd ->
+    length (nth (length (s_factors So) + f) s []) = s_trials So * s_trials Si ->
+    (factor_ok (nest_sem2 So Si) s (length (s_factors So) + f) (shift_factor (length (s_factors So)) fd) = true <->
+     forall g, g < s_trials So -> factor_ok Si (grp (length (s_factors So)) (s_trials Si) g s) f fd = true).
+Proof.
+  intros So Si s HF HTi Hl f fd Hfd Hlen.
+  destruct (factors_b_spec So Si HF) as [_ HFi].
+  assert (Hfn : f < length (s_factors Si)) by (apply nth_error_Some; congruence).
+  apply (inner_factor (nest_sem2 So Si) Si s f fd _ (length (s_factors Si)) (s_trials So) (s_trials Si));
+    try assumption; try reflexivity.
+  apply (HFi fd (nth_error_In _ _ Hfd)).
+Qed.
+
 Section Assembly.
   Variables So Si : sem.
   Variable s : tseq.
@@ -425,8 +469,19 @@ Section Assembly.
   Let no := length (s_factors So).
   Let ni := length (s_factors Si).
 
-  Hypothesis HF : factors_b So Si = true.
   Hypothesis HX : crossings_b So Si = true.
+  (** what the guard must provide about the factors: an outer factor's conditions in the Nest are those of
+      the outer block on the samplings of its row (a crossed factor is constant within each group and meets
+      them on the representatives), an inner factor's conditions split per group *)
+  Hypothesis HOut : length s = no + ni ->
+    forall f fd, nth_error (s_factors So) f = Some fd -> length (nth f s []) = To * Ti ->
+      (factor_ok N s f (scale_factor Ti (crossed_in So f) fd) = true <->
+       (crossed_in So f = true -> forall t, t < To * Ti -> get_cell s f t = get_cell s f (t / Ti * Ti)) /\
+       (forall j, j < Ti -> (crossed_in So f = true -> j = 0) -> factor_ok So (reps_at no To Ti j s) f fd = true)).
+  Hypothesis HInn : length s = no + ni ->
+    forall f fd, nth_error (s_factors Si) f = Some fd -> length (nth (no + f) s []) = To * Ti ->
+      (factor_ok N s (no + f) (shift_factor no fd) = true <->
+       forall g, g < To -> factor_ok Si (grp no Ti g s) f fd = true).
   (** what the guard must provide about the constraints, for a sequence of the right shape *)
   Hypothesis HKi : length s = no + ni -> (forall f, f < no + ni -> length (nth f s []) = To * Ti) ->
     forall k, In k (s_constraints Si) ->
@@ -441,27 +496,12 @@ Section Assembly.
 
   Lemma nest_groups_gen : valid_b N s = true <-> groups_spec2 So Si s.
   Proof.
-    destruct (factors_b_spec So Si HF) as [HFo HFi].
     destruct (crossings_b_spec So Si HX) as [HXo [HXi HTi]].
     unfold N. rewrite nest2_valid_unfold. fold N. unfold groups_spec2.
     fold To Ti no ni. fold Ti in HTi.
     assert (HN : s_trials N = To * Ti) by reflexivity.
     assert (Houter : forall f fd, nth_error (s_factors So) f = Some fd -> length s = no + ni ->
-              length (nth f s []) = To * Ti ->
-              (factor_ok N s f (scale_factor Ti (crossed_in So f) fd) = true <->
-               (crossed_in So f = true -> forall t, t < To * Ti -> get_cell s f t = get_cell s f (t / Ti * Ti)) /\
-               (forall j, j < Ti -> (crossed_in So f = true -> j = 0) -> factor_ok So (reps_at no To Ti j s) f fd = true))).
-    { intros f fd Hfd Hl Hlen.
-      assert (Hfn : f < no) by (apply nth_error_Some; congruence).
-      pose proof (HFo fd (nth_error_In _ _ Hfd)) as Hp. fold no in Hp.
-      destruct (crossed_in So f) eqn:Ecr.
-      - rewrite (outer_factor_crossed N So s f fd no To Ti HN eq_refl HTi Hfn ltac:(lia) Hp Hlen). split.
-        + intros [A B]. split; [intros _; exact A|]. intros j Hj Hj0. rewrite (Hj0 eq_refl). exact B.
-        + intros [A B]. split; [apply A; reflexivity|]. apply B; [exact HTi|reflexivity].
-      - cbn [scale_factor].
-        rewrite (outer_factor_free N So s f fd no To Ti HN eq_refl HTi Hfn ltac:(lia) Hp Hlen). split.
-        + intro A. split; [discriminate|]. intros j Hj _. apply A. exact Hj.
-        + intros [_ B] j Hj. apply B; [exact Hj|discriminate]. }
+              length (nth f s []) = To * Ti -> _) by (intros f fd E Hl Hlen; exact (HOut Hl f fd E Hlen)).
     assert (Hcombo : length s = no + ni ->
               (forall f t, f < no -> crossed_in So f = true -> t < To * Ti -> get_cell s f t = get_cell s f (t / Ti * Ti)) ->
               forall c, In c (s_crossings So) -> forall t, t < To * Ti ->
@@ -499,8 +539,7 @@ Section Assembly.
         * unfold grp. rewrite map_length, skipn_length. fold ni. lia.
         * intros f fd E.
           assert (Hfn : f < ni) by (apply nth_error_Some; congruence).
-          pose proof (HFi fd (nth_error_In _ _ E)) as Hp. fold ni in Hp.
-          apply (proj1 (inner_factor N Si s f fd no ni To Ti HN eq_refl HTi Hfn Hl Hp (Hrowlen (no + f) ltac:(lia)))).
+          apply (proj1 (HInn Hl f fd E (Hrowlen (no + f) ltac:(lia)))).
           -- apply Hfi. exact E.
           -- exact Hgt.
         * intros c Hc. destruct (HXi c Hc) as [H0 [Hch Hmod]].
@@ -518,8 +557,7 @@ Section Assembly.
         * intros j Hj Hj0. apply Hfac; assumption.
       + intros f fd E.
         assert (Hfn : f < ni) by (apply nth_error_Some; congruence).
-        pose proof (HFi fd (nth_error_In _ _ E)) as Hp. fold ni in Hp.
-        apply (proj2 (inner_factor N Si s f fd no ni To Ti HN eq_refl HTi Hfn Hl Hp (Hrowlen (no + f) ltac:(lia)))).
+        apply (proj2 (HInn Hl f fd E (Hrowlen (no + f) ltac:(lia)))).
         intros g Hgt. specialize (Hgrp g Hgt). rewrite valid_b_unfold in Hgrp.
         destruct Hgrp as [_ [Hfg _]]. apply Hfg. exact E.
       + intros c Hc. destruct (HXo c Hc) as [H0 _].
@@ -566,7 +604,10 @@ Theorem nest_groups_d : forall So Si s,
 Proof.
   intros So Si s Hg. unfold nestable_d_b in Hg. rewrite !andb_true_iff in Hg.
   destruct Hg as [[[HF HCo] HCi] HX].
+  destruct (crossings_b_spec So Si HX) as [_ [_ HTi]].
   apply nest_groups_gen; try assumption.
+  - intro Hl. apply plain_outer_split; assumption.
+  - intro Hl. apply plain_inner_split; assumption.
   - intros Hl Hrow. apply inner_constraints_window; assumption.
   - intros _ _ _ c Hc. destruct (s_constraints So); [destruct Hc | discriminate].
 Qed.
